@@ -205,6 +205,9 @@ func (h *c03Harness) generate(steps int, emit func(op string)) {
 	}
 	callSpec := func(c, d int, amt string) (string, int) {
 		rcv := []int{0, 6, 7, 8, 9, 8, 0, 6, 7, 8, 9, 8, c03AccFwd}[rng.Intn(13)]
+		if rng.Intn(100) < 8 { // a module account of the destination: the bank refuses to credit the native coin to it
+			rcv = c03AccGov + rng.Intn(c03NAcc-c03AccGov)
+		}
 		switch x := rng.Intn(100); {
 		case x < 40:
 			return "n", rcv
@@ -231,7 +234,7 @@ func (h *c03Harness) generate(steps int, emit func(op string)) {
 			}
 			switch rng.Intn(10) {
 			case 0:
-				if a.IsInt64() {
+				if a.IsInt64() && a.Int64() < 1<<62 {
 					fee = a.Int64() + 1
 				}
 			case 1:
@@ -288,7 +291,17 @@ func (h *c03Harness) generate(steps int, emit func(op string)) {
 	registryOp := func() {
 		p := rng.Intn(c03NChains)
 		q := other(p)
-		switch rng.Intn(14) {
+		switch rng.Intn(16) {
+		case 14, 15: // a module account (blocked for the native coin) is registered as the one to be paid
+			m := []int{c03AccGov, c03AccFeeColl, c03AccBonded, c03AccPacketMod}[rng.Intn(4)]
+			if rng.Intn(3) == 0 {
+				emit(fmt.Sprintf("register %d %d ?", p, m))
+			} else {
+				emit(fmt.Sprintf("register %d %d ? %d:%d %d:%d", p, m, q, q*16+p, 3-p-q, (3-p-q)*16+p))
+				if rng.Intn(2) == 0 { // … and it is the only one listing that name
+					emit(fmt.Sprintf("register %d %d ? %d:%d", p, c03AccRelayer, p, q*16+p))
+				}
+			}
 		case 0, 1: // the fee recipient is re-registered for ONE counterparty only: acknowledgements from the other one name a relayer this chain can not resolve
 			emit(fmt.Sprintf("register %d %d ? %d:%d", p, c03AccRelayer, q, q*16+p))
 		case 2, 3:
@@ -459,6 +472,34 @@ func (h *c03Harness) generate(steps int, emit func(op string)) {
 			emit(fmt.Sprintf("batch %d %d %d %s", c, snd, strict, strings.Join(legs, " ")))
 			continue
 		}
+		if rng.Intn(100) < 4 {
+			// the native coin of another chain, held here as a voucher, goes home — to a module account of its home chain
+			type cand struct {
+				c int
+				t c03Tok
+				b *big.Int
+			}
+			var cs []cand
+			for c := 0; c < c03NChains; c++ {
+				for _, t := range toks[c] {
+					if !t.origin && t.ot == 0 {
+						if b := h.w.balance(c, h.w.tok[c][t.id], h.w.acc[c03AccUser]); b.Sign() > 0 {
+							cs = append(cs, cand{c, t, b})
+						}
+					}
+				}
+			}
+			if len(cs) > 0 {
+				k := cs[rng.Intn(len(cs))]
+				unit := new(big.Int).Exp(big.NewInt(10), big.NewInt(int64(k.t.scale)), nil)
+				if max := new(big.Int).Div(k.b, unit); max.Sign() > 0 {
+					amt := new(big.Int).Add(big.NewInt(1), randUpTo(new(big.Int).Div(max, big.NewInt(2))))
+					call := []string{"n", "n", "n", "po", "pf", "ph", "pr"}[rng.Intn(7)]
+					emit(fmt.Sprintf("send %d 0 %d %d %s %d %d %d %s", k.c, k.t.oc, k.t.id, amt, c03AccGov+rng.Intn(c03NAcc-c03AccGov), k.t.id, rng.Intn(3), call))
+					continue
+				}
+			}
+		}
 		x := rng.Intn(100)
 		switch {
 		case x < 38 || (len(unrecv) == 0 && len(unacked) == 0):
@@ -509,6 +550,11 @@ func (h *c03Harness) generate(steps int, emit func(op string)) {
 			}
 			amt := amount(bal)
 			call, rcv := callSpec(c, d, amt)
+			if !t.origin && d == t.oc && t.ot == 0 && !strings.HasPrefix(call, "a:") && rng.Intn(100) < 35 {
+				// the native coin going home, to be released to a blocked account: the write-back of the EVM state fails on the
+				// destination after the EVM ran
+				rcv = c03AccGov + rng.Intn(c03NAcc-c03AccGov)
+			}
 			ft := t.id
 			switch rng.Intn(6) {
 			case 0:
@@ -610,6 +656,9 @@ func (h *c03Harness) generate(steps int, emit func(op string)) {
 		emit(defRecipient(p))
 		emit(customRecipient(p))
 		emit(fmt.Sprintf("register %d %d ?", p, c03AccU7))
+		for _, m := range []int{c03AccGov, c03AccFeeColl, c03AccBonded, c03AccPacketMod} {
+			emit(fmt.Sprintf("register %d %d ?", p, m))
+		}
 	}
 	for c := 0; c < c03NChains; c++ {
 		if h.switchOn[c] { // the callback contracts are repaired: acknowledgements that failed in the callback go through now
